@@ -45,8 +45,9 @@ class Frame:
 
 
 class PanicScope:
-    def __init__(self):
+    def __init__(self, depth=0):
         self.guards = []
+        self.depth = depth    # number of frames on the stack when the scope was opened
 
 
 class Engine:
@@ -86,6 +87,7 @@ class Engine:
         self.mutexes = {}
         self.inits_done = set()
         self.narrows = 0
+        self.frames = []
         self.refinements = []     # exact definitions of summarised functions (second-stage queries)
         from . import stubs
         stubs.install(self)
@@ -467,6 +469,13 @@ class Engine:
 
     # ------------------------------------------------------------ globals
     def global_ptr(self, name, tid):
+        gg = self.cfg.get("guarded_globals")
+        if gg and name in gg and self.callstack:
+            fn = self.callstack[-1]
+            if not any(x in fn for x in self.cfg.get("guarded_exempt", (".Verif", ".c06", ".c07"))):
+                moid = self.globals.get(gg[name])
+                held = self.mutexes.get((moid, ()), FALSE) if moid is not None else FALSE
+                self.oblige("lockset", held, oid="lockset:%s accessed without %s in %s" % (name.rsplit(".", 1)[-1], gg[name].rsplit(".", 1)[-1], fn.rsplit("/", 1)[-1]), narrow=False)
         oid = self.globals.get(name)
         if oid is None:
             pt = self.prog.type(tid)
@@ -593,11 +602,13 @@ class Engine:
             frame.env[fv["n"]] = b
         frame.in_edges[0] = [(self.guard, -1, [])]
         saved_guard = self.guard
+        self.frames.append(frame)
         try:
             self.exec_blocks(frame, fn.rpo, None)
         finally:
             self.depth -= 1
             self.callstack.pop()
+            self.frames.pop()
         # merge returns
         if not frame.rets:
             self.guard = FALSE
@@ -669,7 +680,10 @@ class Engine:
                 frame.in_edges.pop(h, None)
                 saved = self.guard
                 self.guard = TRUE
-                self.oblige("unwind", Not(G), oid="unwind:%s#%d" % (fn.name, h), pos=self.block_pos(fn, h), narrow=False)
+                if fn.name not in self.cfg.get("unwind_silent", ()):
+                    self.oblige("unwind", Not(G), oid="unwind:%s#%d" % (fn.name, h), pos=self.block_pos(fn, h), narrow=False)
+                else:
+                    self.stats.setdefault("silent_cuts", []).append("%s#%d after %d iterations" % (fn.name, h, bound))
                 self.guard = saved
                 # paths needing more iterations are cut
                 self.assume_global(Not(G), "loop %s#%d cut after %d iterations" % (fn.name, h, bound))
@@ -793,7 +807,23 @@ class Engine:
 
     def op_Panic(self, frame, b, ins):
         pos = ins.get("pos", "")
+        pg = self.guard
         self.oblige("panic", FALSE, pos=pos)
+        if self.panic_scopes and not is_false(pg):
+            # the panic unwinds the stack: deferred calls of every frame up to the enclosing
+            # Panics(...) scope run on the panicking path (their effects are visible to the harness)
+            lim = self.panic_scopes[-1].depth
+            for fr in reversed(self.frames[lim:]):
+                for (dg, kind, target, args, dins) in reversed(fr.defers):
+                    g = And(pg, dg)
+                    if is_false(g):
+                        continue
+                    self.guard = g
+                    saved_scopes = self.panic_scopes
+                    try:
+                        self.do_call(fr, dins, kind, target, args)
+                    except DeadPath:
+                        pass
         self.guard = FALSE
         self.narrows += 1
 
